@@ -15,7 +15,10 @@ variable [AddMonoid α] [DecidableEq α]
 Writes: subscript arrays; on a 1-way tensor an in-range non-negative linear index and a
 non-empty linear slice (the only linear writes the class supports); every right-hand side
 except an empty array.  Reads: subscript arrays and linear keys on a tensor of order ≥ 1
-(an integer not below `-cells`).  Region keys are covered by `provedRegion`. -/
+(an integer not below `-cells`).  Region keys: writes of a scalar (zero included) through
+integers, slices and index lists, where every NEW mode is addressed by an integer, a list
+or a slice with stop ≥ 1; reads of a single element (all key elements integers in
+`-extent .. extent-1`). -/
 def IdxOp.provedAtSparse (s : List Nat) : IdxOp α → Bool
   | .write (.subs _) rhs => !rhs.isEmptyValue
   | .write (.lin i) rhs =>
@@ -28,12 +31,13 @@ def IdxOp.provedAtSparse (s : List Nat) : IdxOp α → Bool
         | .ok (_ :: _) => true
         | _ => false)
       | _ => false)
+  | .write (.region parts) (.scalar _) => !parts.isEmpty && newModesOk s parts
   | .write _ _ => false
   | .read (.subs _) => true
   | .read (.lin i) => !s.isEmpty && decide (-(numel s : Int) ≤ i)
   | .read (.linSlice _ _ _) => !s.isEmpty
   | .read (.linList _) => !s.isEmpty
-  | .read (.region _) => false
+  | .read (.region parts) => !parts.isEmpty && intsInRange s parts
 
 def ProvedHistS : MArr α → List (IdxOp α) → Prop
   | _, [] => True
@@ -73,14 +77,23 @@ theorem Sparse.setItem_refines {S : Sparse α} {m : MArr α} (h : SRel S m) (key
       | .ok [], hs => exfalso; simp only [hl] at hs; cases hs
       | .error _, hs => exfalso; simp only [hl] at hs; cases hs
   | linList is => simp [IdxOp.provedAtSparse] at hp
-  | region parts => simp [IdxOp.provedAtSparse] at hp
+  | region parts =>
+    cases rhs with
+    | scalar v =>
+      simp only [IdxOp.provedAtSparse, Bool.and_eq_true, Bool.not_eq_true', List.isEmpty_eq_false_iff] at hp
+      exact Sparse.setRegionScalar_refines h parts v hp.1 hp.2
+    | col vs => simp [IdxOp.provedAtSparse] at hp
+    | arr A => simp [IdxOp.provedAtSparse] at hp
+    | tensor A => simp [IdxOp.provedAtSparse] at hp
 
 theorem Sparse.getItem_refines {S : Sparse α} {m : MArr α} (h : SRel S m) (key : Key)
     (hp : (IdxOp.read key : IdxOp α).provedAtSparse S.shape = true) :
     (S.getItem key).map SpReadOut.toReadOut = m.read key := by
   cases key with
   | subs rows => exact Sparse.getItem_subs h rows
-  | region parts => simp [IdxOp.provedAtSparse] at hp
+  | region parts =>
+    simp only [IdxOp.provedAtSparse, Bool.and_eq_true, Bool.not_eq_true', List.isEmpty_eq_false_iff] at hp
+    exact Sparse.getItem_ints h parts hp.1 hp.2
   | lin i =>
     simp only [IdxOp.provedAtSparse, Bool.and_eq_true, Bool.not_eq_true', List.isEmpty_eq_false_iff,
       decide_eq_true_eq] at hp
